@@ -11,6 +11,7 @@ from . import rules_encaps as EN
 from . import rules_cursor as CU
 from . import rules_layout as LA
 from . import rules_flat as FL
+from . import witness as WI
 
 TRUSTED_BASE = [
     "rustc nightly (type checker, MIR construction at mir-opt-level=0, compile_fail diagnostics)",
@@ -64,6 +65,9 @@ def _run(name, f):
         r = [LA.r_layout(f)[0]]
     elif name == "flatseq":
         r = [FL.r_flatseq(f)[0]]
+    elif name == "witness":
+        # compile-fail witnesses are configuration independent: run them once, with the default feature set
+        r = [WI.r_witness(f.root)[0]] if getattr(f, "config", "default") == "default" else []
     else:
         mod = EXTRA.get(name)
         if mod is None:
@@ -135,8 +139,8 @@ ROWCUR = r"^(Rows|RowsMut) as "
 COLCUR = r"^(Col|ColMut) as "
 SWAPS = r"(swap|row_pair_mut|fill)"
 
-prop("C01", [sel("encaps"), sel("zero", fn=r"^(TooDee|DrainCol|DropGuard| as Drop)"), sel("zero", fn=r"^TooDee"), sel("shape"), sel("deleg", fn=r"TooDee::(push|pop)")],
-     "Shape invariant of the owned array, structural clauses: (R-ENCAPS) the three fields are private to module toodee, no exported signature / impl hands out `&mut Vec`, so only the enumerated shape writers can change (len, num_rows, num_cols); (R-ZERO) num_rows==0 <=> num_cols==0 in every abstract state at every TooDee construction site and at every return of a dimension writer; (R-UNWIND/R-LEAK/R-LEAK-DRAIN/R-HIDE) at every point where control can leave a writer (panic in caller code or a rejected call, leak of the returned drain, return) the triple is untouched, all-zero or in product form; (R-DELEG) push/pop delegate to insert/remove with the dimension as index.",
+prop("C01", [sel("encaps"), sel("witness", fn=r"^(W1|W2|W3|W4|W6|W7|W9|<rule>|<witness>)"), sel("zero", fn=r"^(TooDee|DrainCol|DropGuard| as Drop)"), sel("zero", fn=r"^TooDee"), sel("shape"), sel("deleg", fn=r"TooDee::(push|pop)")],
+     "Shape invariant of the owned array, structural clauses: (R-ENCAPS) the three fields are private to module toodee, no exported signature / impl hands out `&mut Vec`, so only the enumerated shape writers can change (len, num_rows, num_cols) - backed by compile_fail witnesses with compiling twins (assigning a field, building the struct or a cursor from parts, AsMut<Vec>, observing the array while a drain / mutable cursor is alive must not type-check); (R-ZERO) num_rows==0 <=> num_cols==0 in every abstract state at every TooDee construction site and at every return of a dimension writer; (R-UNWIND/R-LEAK/R-LEAK-DRAIN/R-HIDE) at every point where control can leave a writer (panic in caller code or a rejected call, leak of the returned drain, return) the triple is untouched, all-zero or in product form; (R-DELEG) push/pop delegate to insert/remove with the dimension as index.",
      declined=["that the length written by insert_row/insert_col/remove_row on the success path equals the new product (loop/pointer arithmetic, DESIGN 2.4)", "cells equal those of a rows-of-cells model (runtime values)"])
 prop("C02", [sel("layout", fn=r"(Index|IndexMut|::col$|::col_mut$|get_unchecked|<rule>)"), sel("guard", fn=r"(Index|IndexMut|::col$|::col_mut$| as TooDeeOps(Mut)?::col|get_col_params)"), sel("guard", rules=["R-ARITH"], fn=COLCUR), sel("units", fn=r"(Index|::col|get_unchecked|get_col_params|Col as|ColMut as)")],
      "Checked access, structural clauses: (R-GUARD) every caller index of Index/IndexMut (row and coordinate forms) and col()/col_mut() on the three receivers is compared strictly with the dimension of its own unit by a guard whose failing edge panics and whose surviving edge dominates every arithmetic use and unchecked access; (R-ARITH) Col/ColMut indexing forms idx*(1+skip) only with checked arithmetic and reaches the cell through a checked slice index (no wrap for huge indices with overflow checks off); (R-UNITS) rows are never compared/multiplied as columns. (R-LAYOUT) every unchecked access of the accessors (Index/IndexMut, col/col_mut, the four get_unchecked*) on the three receivers has, as a canonical polynomial after composing nested slices, the address row*S+col (or the row / column range forms) with S the object's own stride, and the matching lemma's hypotheses (row < R, col < C) are path facts - hence all accessors denote one and the same cell.",
@@ -144,7 +148,7 @@ prop("C02", [sel("layout", fn=r"(Index|IndexMut|::col$|::col_mut$|get_unchecked|
 prop("C03", [sel("layout", fn=r"(::view|::view_mut|from_toodee|TooDeeView(Mut)?::new|<rule>)"), sel("zero", fn=VIEWS), sel("units", fn=VIEWS), sel("encaps", fn=r"^TooDeeView")],
      "Views, structural clauses: (R-ZERO) every TooDeeView/TooDeeViewMut construction site receives dimensions that are both zero or both non-zero - through the computed (not assumed) summary of the shared window validator, or through the zero-rule guard of the slice constructors; (R-UNITS) start/end/stride are used with the right axis; fields of the view types are module-private. (R-LAYOUT) the six view constructors, evaluated path-wise with the shared window validator inlined, hand get_unchecked a range that matches L-WINDOW (start*stride+start.0 .. + (rows-1)*stride+cols, with sr<er<=R, sc<ec<=C among the path facts) for non-empty windows and the constant empty range L-EMPTY for empty ones, slice the receiver's own backing slice, and store the receiver's own stride; TooDeeView::new / TooDeeViewMut::new slice the prefix num_cols*num_rows under the fact size <= len (L-PREFIX).",
      declined=["cell-by-cell equality of view and parent (runtime values)"])
-prop("C04", [sel("encaps", fn=r"^(TooDeeViewMut|RowsMut|ColMut|<impls>)"), sel("units", fn=r"TooDeeViewMut"), sel("dup"), sel("take", fn=r"^(RowsMut|ColMut)"), sel("cursor", fn=r"^(RowsMut|ColMut)( |:|$)|<rule>"), sel("layout", fn=r"^TooDeeViewMut|<rule>")],
+prop("C04", [sel("encaps", fn=r"^(TooDeeViewMut|RowsMut|ColMut|<impls>)"), sel("witness", fn=r"^(W5|W8|W10|<witness>)", keep_rule_floor=False), sel("units", fn=r"TooDeeViewMut"), sel("dup"), sel("take", fn=r"^(RowsMut|ColMut)"), sel("cursor", fn=r"^(RowsMut|ColMut)( |:|$)|<rule>"), sel("layout", fn=r"^TooDeeViewMut|<rule>")],
      "Confinement to a mutable view, structural clauses: the view's fields are module-private and RowsMut/ColMut fields crate-private, TooDeeViewMut/RowsMut/ColMut are not Clone (no second writer), the generic algorithm layers (ops/sort/translate/copy) are written against the trait only and use only permutation primitives (R-DUP); the mutable cursors never read a taken slice (R-TAKE). (R-LAYOUT) every writer of module view (index_mut x2, get_unchecked*_mut, col_mut, rows_mut, swap_rows, view_mut, from_toodee, new) matches a confined schema with S = the view's stride: L-POS / L-ROW / L-COLV / L-SWAPROWS / L-WINDOW and the literals RowsMut { cols: C, skip_cols: stride - C }, ColMut { skip: stride - 1 }; (R-CURSOR) RowsMut / ColMut then hand out only [k*(C+K), +C) / single cells.",
      declined=["effect inside the rectangle equals the effect on an owned copy (runtime values)"])
 prop("C05", [sel("shape", rules=["R-HIDE", "R-LEAK", "R-LEAK-DRAIN"]), sel("dup"), sel("zstptr")],
@@ -167,7 +171,7 @@ prop("C10", [sel("flatseq"), sel("flat_struct"), sel("take", fn=r"^RowsMut"), se
 prop("C11", [sel("shape", rules=["R-UNWIND", "R-HIDE"]), sel("zero", fn=r"^(TooDee::(insert|remove|clear|swap_dim)|DrainCol|DropGuard)"), sel("sortshape", desc=r"s5")],
      "Panic safety is an exit-point property: (R-UNWIND) at every may-unwind terminator (caller code recognised structurally: trait methods on type parameters, closure parameters, drops of types mentioning a type parameter; allocation failure in reserve; assertion failures) of every shape writer, with a shape write still pending, the triple (len, rows, cols) - followed through cleanup blocks and restorer drops - is untouched, all-zero or in product form; (R-HIDE) bitwise duplicates only exist beyond the lowered length and no unwind path restores it; (R-SORTSHAPE s5) comparators/key functions run only inside the side sort, which dominates all array writes.",
      declined=["'every reachable cell holds a live element' beyond the three consistent forms"])
-prop("C12", [sel("shape", rules=["R-LEAK", "R-LEAK-DRAIN"]), sel("zero", fn=r"^TooDee::remove"), sel("encaps", fn=r"^(DrainCol|<api>)")],
+prop("C12", [sel("witness", fn=r"^(W6|W7|W9|<witness>)", keep_rule_floor=False), sel("shape", rules=["R-LEAK", "R-LEAK-DRAIN"]), sel("zero", fn=r"^TooDee::remove"), sel("encaps", fn=r"^(DrainCol|<api>)")],
      "Leak safety: (R-LEAK) a function returning a crate type whose destructor writes the shape returns with a consistent triple as if the destructor never ran; (R-LEAK-DRAIN) a returned std Drain over the buffer is a tail drain, so that Vec's leaked length equals the already-updated dimensions' product; (R-ZERO) the dimensions written eagerly obey the zero rule.  Iterators/views perform no shape write and have no shape-writing drop glue (they are not shape writers in the enumeration).",
      declined=["range.start == new_rows*new_cols for the tail drain (arithmetic, DESIGN 2.4)"])
 prop("C13", [sel("layout", fn=r"(swap|<rule>)"), sel("guard", fn=SWAPS), sel("units", fn=SWAPS), sel("dup", fn=r"(swap|fill|row_pair)")],
